@@ -1,5 +1,6 @@
 import CircBuf.Props.C01
 import CircBuf.Lemmas.Cmp
+import CircBuf.Lemmas.HistoryFull
 /-!
 # C04 — unoccupied storage is never observed
 
@@ -90,5 +91,18 @@ different junk in the unoccupied cell -/
 example : abs (⟨2, 1, 0, fun i => if i = 0 then some ⟨1, 5⟩ else some ⟨900001, 7⟩⟩ : CB)
         = abs (⟨2, 1, 1, fun i => if i = 1 then some ⟨1, 5⟩ else none⟩ : CB) := by
   simp [abs, phys]
+
+/-- **two buffers with equal logical contents are indistinguishable under any subsequent operations**:
+whatever their front positions, whatever lies in their unoccupied slots and however they were reached,
+any finite history over the whole mutator API (user code that does not panic) produces the same
+outputs and ends with the same logical contents on both -/
+theorem C04_history (cap : Nat) (ops : List OpX) (s1 s2 : Sys) (g1 : GoodX cap s1) (g2 : GoodX cap s2)
+    (habs : abs s1.buf = abs s2.buf) (hnext : s1.next = s2.next) :
+    (runOpsX ops s1).1 = (runOpsX ops s2).1 ∧
+    abs (runOpsX ops s1).2.buf = abs (runOpsX ops s2).2.buf := by
+  obtain ⟨a1, b1, _⟩ := historyX_refines cap ops s1 g1
+  obtain ⟨a2, b2, _⟩ := historyX_refines cap ops s2 g2
+  rw [habs, hnext] at a1 b1
+  exact ⟨a1.trans a2.symm, b1.trans b2.symm⟩
 
 end CircBuf
